@@ -228,6 +228,12 @@ pub fn ia5_text(max: usize) -> BoxedStrategy<String> {
 		6 => text_for(StrKind::Ia5, max),
 		// texts that look like something else: IP literals, the empty string
 		1 => select(vec!["10.0.0.1", "::1", "::", "1.2.3.4", "fe80::1", "255.255.255.255", "::ffff:1.2.3.4", "2001:db8::1", "", "0", "1.2.3"]).prop_map(|s| s.to_string()),
+		// texts with syntax a tidy-minded writer might "normalise": brackets, quotes, dots, case, blanks, schemes
+		1 => select(vec![
+			"<alice@example.com>", "<>", "<a", "a>", "\"q\"@example.com", "Alice <alice@example.com>", "alice@example.com.", "user@[1.2.3.4]", "mailto:alice@example.com",
+			"example.com.", ".example.com", "*.example.com", "EXAMPLE.com", "Host.Example.COM", "host.example.com", " example.com", "example.com ", "ex ample.com",
+			"HTTP://Example.COM/", "http://example.com:80/a/../b", "http://example.com/%7euser", "urn:uuid:0", "xn--bcher-kva.example", "a..b", "-", "_srv._tcp.example.com",
+		]).prop_map(|s| s.to_string()),
 		// lengths around the short/long form boundaries of DER lengths
 		1 => (select(vec![120usize, 248]), 0usize..14).prop_map(|(n, d)| format!("{}.example", "a".repeat(n + d))),
 	]
@@ -656,6 +662,21 @@ pub fn cert_spec(o: CertGenOpts) -> BoxedStrategy<CertSpec> {
 	)
 		.prop_map(|(((not_before, not_after), serial, dn, kid, mask), (mut sans, is_ca, key_usages, ekus, nc, crl_dps, custom))| {
 			let keep = |bit: u8| mask & (1 << bit) != 0;
+			// now and then two entries that a careless comparison would take for one: the same text in
+			// another letter case, the same text in another name form, an exact repeat
+			if not_before.nanos % 16 == 2 || not_after.nanos % 16 == 3 {
+				let twin = sans.iter().find_map(|s| match s {
+					SanSpec::Dns(t) | SanSpec::Rfc822(t) | SanSpec::Uri(t) if !t.is_empty() => Some(t.clone()),
+					_ => None,
+				});
+				if let Some(t) = twin {
+					let flipped: String = t.chars().map(|c| if c.is_ascii_lowercase() { c.to_ascii_uppercase() } else { c.to_ascii_lowercase() }).collect();
+					sans.push(SanSpec::Dns(flipped.clone()));
+					sans.push(SanSpec::Rfc822(t.clone()));
+					sans.push(SanSpec::Uri(flipped));
+					sans.push(SanSpec::Dns(t));
+				}
+			}
 			// now and then a list long enough to push enclosing lengths over 127 / 255 / 65535 octets
 			if not_before.nanos % 64 == 1 && !sans.is_empty() {
 				let n = [40usize, 130, 300][(not_before.unix.rem_euclid(3)) as usize];
@@ -772,8 +793,23 @@ pub fn csr_spec(moderate: bool, standard_ekus: bool, with_custom: bool) -> Boxed
 		mask,
 		kid(),
 	)
-		.prop_map(move |(dn, sans, ku, ekus, custom, mask, kid)| {
+		.prop_map(move |(dn, mut sans, ku, ekus, custom, mask, kid)| {
 			let keep = |b: u8| mask & (1 << b) != 0;
+			// near-duplicates and exact repeats (see cert_spec)
+			if ku.len() % 4 == 1 && sans.len() % 2 == 0 {
+				let twin = sans.iter().find_map(|s| match s {
+					SanSpec::Dns(t) | SanSpec::Rfc822(t) | SanSpec::Uri(t) if !t.is_empty() => Some(t.clone()),
+					_ => None,
+				});
+				if let Some(t) = twin {
+					let flipped: String = t.chars().map(|c| if c.is_ascii_lowercase() { c.to_ascii_uppercase() } else { c.to_ascii_lowercase() }).collect();
+					sans.push(SanSpec::Dns(flipped));
+					sans.push(SanSpec::Dns(t.clone()));
+					sans.push(SanSpec::Rfc822(t));
+				}
+				let first = sans[0].clone();
+				sans.push(first);
+			}
 			let mut s = CertSpec::minimal();
 			s.serial = None; // a CSR cannot carry one
 			s.dn = dn;
